@@ -74,18 +74,33 @@ func execProgram(p Program, render bool) (fail string, failAt int, coq string, s
 		f, at, cq, s := execProgramRaw(p, render, &progress)
 		ch <- result{f, at, cq, s}
 	}()
-	limit := 10*time.Second + time.Duration(len(p.Ops))*2*time.Millisecond
-	select {
-	case r := <-ch:
-		return r.fail, r.failAt, r.coq, r.st
-	case <-time.After(limit):
-		// the goroutine is left spinning; the caller reports and the process exits soon after
-		at := int(atomic.LoadInt32(&progress))
-		name := "?"
-		if at < len(p.Ops) {
-			name = p.Ops[at].Name
+	// watchdog on progress, not on total time (the machine may be heavily loaded): the run is
+	// declared hung when the index of the operation being executed has not moved for 15 s
+	const stall = 15
+	tick := time.NewTicker(time.Second)
+	defer tick.Stop()
+	last, same := int32(-1), 0
+	for {
+		select {
+		case r := <-ch:
+			return r.fail, r.failAt, r.coq, r.st
+		case <-tick.C:
+			cur := atomic.LoadInt32(&progress)
+			if cur == last {
+				same++
+			} else {
+				last, same = cur, 0
+			}
+			if same >= stall {
+				// the goroutine is left spinning; the caller reports and the process exits soon after
+				at := int(cur)
+				name := "?"
+				if at < len(p.Ops) {
+					name = p.Ops[at].Name
+				}
+				return fmt.Sprintf("op %d %s did not return within %d s: the call loops forever", at, name, stall), at, "", runStats{}
+			}
 		}
-		return fmt.Sprintf("op %d %s did not return within %v: the call loops forever", at, name, limit), at, "", runStats{}
 	}
 }
 
